@@ -9,6 +9,28 @@ def only_stream(w, version, ints):
     return w.eq(ints[2], 4)
 
 
+def unprescribed(w, ref, msg):
+    """Block requests whose outcome the statement does not fix: for an existing firmware other
+    than the one scheduled for the node, or for a block index beyond the image."""
+    from verifspec import refmodel as R
+    node, child, command, ack, sub, payload = msg
+    if not w.is_true(w.eq(sub, 2)):
+        return False
+    words = w.call(R.hex_words, payload, 3)
+    if words is None:
+        return False
+    ota = ref["ota"]
+    out = []
+    for store in ("unstarted", "started"):
+        for nid, fw_id in ota[store].items():
+            mine = w.eq(nid, node)
+            other_fw = w.not_(w.and_(w.eq(words[0], fw_id[0]), w.eq(words[1], fw_id[1])))
+            fware = ota["firmware"].get(fw_id)
+            beyond = w.le(fware["blocks"], words[2]) if fware is not None else False
+            out.append(w.and_(mine, w.or_(other_fw, beyond)))
+    return w.or_(*out) if out else False
+
+
 def update_call(versions):
     """update_fw call forms against the reference: only known nodes are scheduled, any earlier
     session of theirs restarts from the config step, reboot is requested."""
@@ -89,7 +111,8 @@ def build(tier):
     shapes = [["awake1", "bare"]] if q else [["awake1", "bare"], ["sleep", "awake1"]]
     session = stepref.step(versions, shapes, 0, [("sync", "serial")], {"state", "reply"},
                            only=only_stream, hexshapes=True,
-                           ota_modes=("requested", "unstarted", "started", "none", "fixed"))
+                           ota_modes=("requested", "unstarted", "started", "none", "fixed"),
+                           unprescribed=unprescribed)
     hs = [
         Harness("session-step", session,
                 {"command": "stream (4), every sub-type", "payload": "hex-shaped, lengths "
@@ -108,9 +131,9 @@ def build(tier):
         "level_text": "inductive one-step equivalence of respond_fw_config/respond_fw/_get_fw and "
                       "make_update with the reference session automaton (requested -> offered -> "
                       "fetching), for symbolic hex payloads, node ids, firmware ids and stores",
-        "assumptions": ["a block request for an existing firmware other than the scheduled one, "
+        "assumptions": ["a block request for a firmware other than the one scheduled for the node, "
                         "and a block index beyond the image, are not prescribed by the statement: "
-                        "the reference follows the implementation there (DESIGN C10)",
+                        "for those inputs only 'the pump does not raise' is checked",
                         "set -> reboot request and presentation -> reboot cleared are part of the "
                         "C04/C05 reference"],
         "outside": ["Intel-HEX loading (stubbed load_fw)", "more than two nodes / one image"],
